@@ -210,6 +210,11 @@ func init() {
 			op.ID = fmt.Sprintf("c%d.0", c)
 			op.Ledger = "dst"
 			if op.Kind == KBulk {
+				if !op.Atomic && r.Chance(0.5) {
+					// a failing element first: the rest of the bulk must still go through the ledger gate
+					op.ContinueOnFailure = true
+					op.Elements = append(op.Elements, Op{ID: g.id("e"), Kind: KPostings, Ledger: "dst", Postings: []PostingSpec{{fmt.Sprintf("poor:%d", c), "bank", "1000", "USD"}}, Expect: "INSUFFICIENT_FUND"})
+				}
 				for i := 0; i < 2; i++ {
 					op.Elements = append(op.Elements, Op{ID: g.id("e"), Kind: KPostings, Ledger: "dst", Postings: []PostingSpec{{"world", fmt.Sprintf("w:%d:%d", c, i), "2", "USD"}}})
 				}
@@ -221,8 +226,10 @@ func init() {
 			clients = append(clients, []Op{imp2})
 		}
 		sc.Clients = clients
-		// afterwards the ledger must still be usable
-		sc.Post = []Op{{ID: g.id("p"), Kind: KPostings, Ledger: "dst", Postings: []PostingSpec{{"world", "after", "1", "USD"}}}}
+		// afterwards: an import of logs that follow the existing ones must be refused once a write was
+		// accepted, and the ledger must still be usable
+		sc.Post = []Op{{ID: g.id("p"), Kind: KImport, Ledger: "dst", From: "src", Remainder: true, Chunked: 1 << 20},
+			{ID: g.id("p"), Kind: KPostings, Ledger: "dst", Postings: []PostingSpec{{"world", "after", "1", "USD"}}}}
 		ex := defaultExplore(seed, 0, 0)
 		if r.Chance(0.3) {
 			ex = defaultExplore(seed, 0.03, 1, FCrash, FStmtErr, FConnLost, FCommitClean, FDisconnect)
